@@ -160,7 +160,10 @@ func Harness_C04_SourceRunner() {
 		// what can still happen before the next read: a checkpoint start, a watermark tick
 		var actions []int
 		actions = append(actions, 0)
-		if nextCkpt <= uint64(verif.Param("CKPTS", 2)) {
+		// (the job starts the next checkpoint only after the previous request was taken: the request
+		// channel holds one barrier, and the fake reader - unlike a real source - blocks its read
+		// until the harness grants it, so a second request would block the harness itself)
+		if nextCkpt <= uint64(verif.Param("CKPTS", 2)) && len(sr.checkpointBarrier) == 0 {
 			actions = append(actions, 1)
 		}
 		if ticks < verif.Param("TICKS", 1) {
@@ -197,7 +200,7 @@ func Harness_C04_SourceRunner() {
 		verif.Quiesce()
 	}
 	// a checkpoint may also be started after the last read
-	if nextCkpt <= uint64(verif.Param("CKPTS", 2)) && verif.Choose("final-checkpoint", 2) == 1 {
+	if nextCkpt <= uint64(verif.Param("CKPTS", 2)) && len(sr.checkpointBarrier) == 0 && verif.Choose("final-checkpoint", 2) == 1 {
 		sr.HandleStartCheckpoint(ctx, nextCkpt)
 		verif.Quiesce()
 	}
